@@ -313,6 +313,61 @@ def _call_prog_strategy(tier):
     return proggen.programs(size=14 if tier == "quick" else 22, max_depth=1, roots=("module",), detached=False, call_bias=True)
 
 
+def check_inserted(case) -> list[Fail]:
+    """The handle returned by insert_nested / insert_cfg / insert_conditional / insert_tail_loop enumerates
+    the outputs of the inserted container, for any number of outputs including none."""
+    import hugr.ops as ops
+    import hugr.tys as tys
+    from hugr.build.cfg import Cfg
+    from hugr.build.cond_loop import Conditional, TailLoop
+    from hugr.build.dfg import Dfg
+    from hugr.hugr.node_port import OutPort
+
+    from vlib.interp import mk_row
+
+    tr = mk_row(case["row"])
+    kind = case["kind"]
+    host = Dfg(*tr, *([tys.Bool] if kind == "conditional" else []))
+    wires = list(host.inputs())[: len(tr)]
+    if kind == "nested":
+        b = Dfg(*tr)
+        b.set_outputs(*b.inputs())
+        node = host.insert_nested(b, *wires)
+    elif kind == "cfg":
+        b = Cfg(*tr)
+        with b.add_entry() as entry:
+            entry.set_single_succ_outputs(*entry.inputs())
+        b.branch(entry[0], b.exit)
+        node = host.insert_cfg(b, *wires)
+    elif kind == "conditional":
+        b = Conditional(tys.Bool, tr)
+        for i in range(2):
+            with b.add_case(i) as c:
+                c.set_outputs(*c.inputs())
+        node = host.insert_conditional(b, host.inputs()[len(tr)], *wires)
+    else:
+        k = case["just"] % (len(tr) + 1)
+        b = TailLoop(tr[:k], tr[k:])
+        ins = list(b.inputs())
+        brk = b.add_op(ops.Tag(1, tys.Either(tr[:k], tr[:k])), *ins[:k])
+        b.set_loop_outputs(brk, *ins[k:])
+        node = host.insert_tail_loop(b, wires[:k], wires[k:])
+    want = [OutPort(node.to_node(), i) for i in range(len(tr))]
+    try:
+        got = list(node)
+    except Exception as e:  # noqa: BLE001
+        return [Fail("builder-handle", f"insert_{kind}:iteration-raises-{type(e).__name__}", f"inserted container with {len(tr)} outputs")]
+    if got != want:
+        return [Fail("builder-handle", f"insert_{kind}:wrong-outputs", f"{len(got)} ports, the container has {len(tr)} outputs")]
+    return []
+
+
+SUBS.append(
+    Sub("inserted-container-handles", check_inserted, strategy=lambda tier: st.fixed_dictionaries({"kind": st.sampled_from(["nested", "cfg", "conditional", "tail_loop"]), "row": st.lists(__import__("vlib.asts", fromlist=["x"]).types(1, copy_only=True), max_size=3), "just": st.integers(0, 3)}),
+        nontrivial=lambda c: True, classes=lambda c: [c["kind"], f"outputs:{min(len(c['row']), 2)}"], n_quick=160, n_thorough=1000)
+)
+
+
 def check_reused_handles(case) -> list[Fail]:
     """One UnpackTuple / CallIndirect operation object given to the builder twice, for a tuple / function of
     another width: the handle returned for the second node enumerates the second node's outputs."""
